@@ -694,6 +694,42 @@ func runC12(c *Ctx) {
 				"loadByteArray attaches a captured client's lease to the netfilter subnet without testing the address against that subnet's prefix")
 		})
 	}
+	// the reply is encoded in place, in the request's buffer: whatever the reply path needs from the request (the
+	// broadcast flag for the destination) is read before the handlers run, never from the overwritten buffer
+	r.Rule("request-fields", "fields of the request are read before the reply is encoded into the same buffer", 1)
+	if fn := c.P.Method(dhcpRel, "Handler", "ProcessPacket"); fn != nil {
+		var req ssa.Value
+		for _, s := range callsIn(fn, nameIs("IsValid")) {
+			if len(s.Common().Args) == 1 && strings.HasSuffix(s.Common().Args[0].Type().String(), "packet.DHCP4") {
+				req = s.Common().Args[0]
+			}
+		}
+		if req == nil {
+			r.Add(core.Obligation{Rule: "request-fields", Key: "request-fields ProcessPacket", Func: core.FuncName(fn), Status: core.Undecided, Detail: "the DHCP request view of ProcessPacket was not found"})
+		} else {
+			bw := newBufWrites(c)
+			clobbers, stale := bw.staleReads(fn, req)
+			st := core.Proved
+			det := ""
+			if len(clobbers) == 0 {
+				st, det = core.Undecided, "no call that writes the request buffer was found (the reply is expected to be encoded in place)"
+			}
+			if len(stale) > 0 {
+				st = core.Violated
+				var ds []string
+				for _, p := range stale {
+					ds = append(ds, fmt.Sprintf("%s at %s (after %s at %s)", shortCallee(p[1].(ssa.CallInstruction)), c.P.Pos(core.PosOf(p[1])), shortCallee(p[0].(ssa.CallInstruction)), c.P.Pos(core.PosOf(p[0]))))
+				}
+				det = "the request view is read after a call that may have encoded the reply into the same buffer, so the value is the reply's, not the request's: " + strings.Join(dedupStrings(ds), "; ")
+			}
+			pos := c.P.Pos(fn.Pos())
+			if len(stale) > 0 {
+				pos = c.P.Pos(core.PosOf(stale[0][1]))
+			}
+			r.Add(core.Obligation{Rule: "request-fields", Key: "request-fields ProcessPacket", Func: core.FuncName(fn), Pos: pos, Status: st,
+				Basis: fmt.Sprintf("%d calls may write the request buffer; no getter of the request view is reachable from them", len(clobbers)), Detail: det})
+		}
+	}
 	// destination
 	if fn := c.P.Method(dhcpRel, "Handler", "ProcessPacket"); fn != nil {
 		ok := false
